@@ -456,6 +456,25 @@ def call_np(ip, name, args, kwargs, lineno):
         if isinstance(a, SArr):
             return arr_sum(a)
         raise Unsupported("np.sum")
+    if name == "hstack":
+        parts = args[0]
+        if isinstance(parts, (list, tuple)) and parts and all(isinstance(x, SArr2) and conc(x.cols) == 1 for x in parts):
+            M.use("np.hstack of column vectors")
+            for x in parts[1:]:
+                M.same_len(parts[0].rows, x.rows, "hstack.rows", lineno)
+            fs = [x.snapshot2() for x in parts]
+            F = len(fs)
+
+            def at2(i, j, fs=fs, F=F):
+                cj = conc(j)
+                if isinstance(cj, int):
+                    return fs[cj](i, 0) if 0 <= cj < F else 0
+                r = fs[-1](i, 0)
+                for t in range(F - 2, -1, -1):
+                    r = Ite(I(j) == t, fs[t](i, 0), r)
+                return r
+            return SArr2.fresh(parts[0].rows, F, at2)
+        raise Unsupported("np.hstack")
     if name == "diff":
         a = as_arr(ip, args[0])
         f = a.snapshot()
@@ -740,6 +759,20 @@ def call_method(ip, obj, fam, name, args, kwargs, lineno):
             return SArr.fresh(a.rows, at)
         if name == "data":
             return a
+        if name == "sum":
+            ax = kwargs.get("axis", args[0] if args else None)
+            k = conc(a.cols)
+            if conc(ax) in (-1, 1) and isinstance(k, int) and k <= 16:
+                M.use("2-D sum over a concrete number of columns (axis=-1)")
+                f2 = a.snapshot2()
+
+                def at(i, f2=f2, k=k):
+                    r = z3.IntVal(0)
+                    for j in range(k):
+                        r = r + I(f2(i, j))
+                    return r
+                return SArr.fresh(a.rows, at)
+            raise Unsupported("2-D sum with axis %r" % (ax,))
         if name == "ravel":
             return ravel2(ip, a, lineno)
         if name == "copy":
@@ -853,9 +886,15 @@ def ravel2(ip, a, lineno):
         r1 = SArr.fresh(a.rows, lambda p: f2(p, 0), a.kind, a.enc)
         return r1
 
-    def at(p):
-        q, r = M._divmod_noassert(p, cols)
-        return f2(q, r)
+    cache = c.ghost.setdefault("ravel2_cache", {})
+    key = (id(f2), z3.simplify(I(cols)).get_id())
+    if key in cache:
+        at = cache[key][0]                 # the same element function for the same (unmodified) matrix: prefix sums etc. are shared
+    else:
+        def at(p):
+            q, r = M._divmod_noassert(p, cols)
+            return f2(q, r)
+        cache[key] = (at, f2)
     r = SArr.fresh(n, at, a.kind, a.enc)
     r.ravel_of = (f2, a.rows, cols)
     return r
@@ -1039,8 +1078,8 @@ class RShape:
 
     def getitem(self, ip, idx, lineno):
         k = conc(idx)
-        if k == -1:
-            return SArr.fresh(self.n, self.lens)     # shape[-1] is the array of row lengths
+        if k in (-1, 1):
+            return SArr.fresh(self.n, self.lens)     # shape[-1] (= shape[1]) is the array of row lengths
         if k == 0:
             return self.n
         raise Unsupported("ragged shape index %r" % (idx,))
